@@ -26,7 +26,7 @@ RULE = ("every history of <= depth events (reverse whole path, reverse subpath i
         "the path has a drawn segment; distinct = distinct (path, history).")
 MANIFEST = dict(
     technique="explicit-state exploration of reverse/transform histories against a geometric reference model",
-    text="all histories up to depth 2 (quick) / 3 (thorough) of whole-path reverse, per-subpath reverse and transforms are "
+    text="all histories up to depth 3 (quick) / 4 (thorough) of whole-path reverse, per-subpath reverse and transforms are "
          "executed on fresh copies of every path of the structural alphabet and compared after each step with a model "
          "that only knows sampled geometry; the involution is checked by undoing the history",
     note="closed subpaths are compared as cyclic sequences (a reversed loop may start at another vertex); a close and a "
@@ -214,7 +214,7 @@ class Histories(SubCheck):
     def __init__(self, svg, tier):
         self.svg = svg
         self.paths = build_paths(tier)
-        self.depth = 3 if tier == "thorough" else 2
+        self.depth = 4 if tier == "thorough" else 3
         ev = ["rev", "sub0", "sub1", "sub2", "mul:R90", "mul:MX"]
         self.space = Product(range(len(self.paths)), Sequences(ev, self.depth, 1))
         self.bounds = dict(paths=len(self.paths), events=ev, depth=self.depth)
